@@ -6,10 +6,14 @@
    basis) yields exactly grid_size pairwise distinct non-negative vectors of L1 norm <= limit
    (= limit for loss moments), and the selection rule returns the first index minimising
    (1-w)*objective + w*max(gamma) over all trained predictors.
-   NOT proved here (checked on every run against the implementation's own numbers, see
-   harness/props/c09.py): that each predictor is a best response of the exact learner to its
-   multiplier (C07 proves the reduction identity) and that the recorded objective / gamma are those
-   of the recorded predictor. *)
+   Second part (below, after C09_example): the fit loop itself (FL.GridSearch): with an exact
+   cost-sensitive learner every recorded predictor is a best response to its multiplier (corollary
+   of C07's cost_sensitive_equiv / loss_identity), the recorded objective / gamma are those of the
+   recorded predictor, predict delegates to the first arg-min of the trade-off loss; the relabel /
+   reweight lines, the trade-off loss and the selection expression REGENERATED from
+   GridSearch.fit (FLGen.Gen_gridsearch) are the model's definitions.
+   Tied by the correspondence run only: that harness.learners.ExactLearner is the Gallina
+   exact_learn, pandas alignment of the multipliers with the constraint index, float arithmetic. *)
 From Coq Require Import QArith ZArith List Bool.
 From FL Require Import Num Grid Grid_proofs.
 From FLGen Require Gen_grid.
@@ -147,3 +151,181 @@ Example C09_example :
   | None => False
   end.
 Proof. vm_compute. repeat split; reflexivity. Qed.
+
+(* ====================================================================================== *)
+(* The fit loop (FL.GridSearch): best response, recorded values, delegation, source tie    *)
+(* ====================================================================================== *)
+From FL Require Import Moments Moments_proofs Reduction Reduction_proofs GridSearch GridSearch_proofs.
+From FLGen Require Gen_gridsearch.
+Open Scope Q_scope.
+
+(* the kernels regenerated from GridSearch.fit / __init__ are the model's definitions:
+   `weights + objective.signed_weights()`, `1 * (weights > 0)`, `weights.abs()`,
+   `self.objective_weight * self.objectives_[i] + self.constraint_weight * self.gammas_[...].max()` with
+   objective_weight = 1.0 - constraint_weight, and `losses.index(min(losses))`
+   (`>=`, `.abs().max()`, `max(losses)`, swapped weights: not convertible / translator raises) *)
+Theorem C09_src_weights : forall a b : list Q, zipw Gen_gridsearch.weights_entry a b = vadd a b.
+Proof. reflexivity. Qed.
+Print Assumptions C09_src_weights.
+
+Theorem C09_src_relabel : forall w : list Q, map Gen_gridsearch.relabel_entry w = relabel w.
+Proof. reflexivity. Qed.
+Print Assumptions C09_src_relabel.
+
+Theorem C09_src_reweight : forall w : list Q, map Gen_gridsearch.reweight_entry w = reweight w.
+Proof. reflexivity. Qed.
+Print Assumptions C09_src_reweight.
+
+Theorem C09_src_loss : forall (cw obj : Q) (gam : list Q), Gen_gridsearch.loss cw obj gam = tradeoff cw obj gam.
+Proof. reflexivity. Qed.
+Print Assumptions C09_src_loss.
+
+Theorem C09_src_select : forall l : list Q, Gen_gridsearch.best_idx l = index_of_min l.
+Proof. reflexivity. Qed.
+Print Assumptions C09_src_select.
+
+(* the model's training step and selection, written with the regenerated kernels *)
+Theorem C09_src_fit_point :
+  forall (X Hyp : Type) (learn : list (X * Q * Q) -> Hyp) k r fp fn rows xs lam,
+    fit_point_cls learn k r fp fn rows xs lam
+    = let w := zipw Gen_gridsearch.weights_entry (signed_weights k r rows lam) (er_signed_weights fp fn rows) in
+      train learn xs (map Gen_gridsearch.relabel_entry w) (map Gen_gridsearch.reweight_entry w).
+Proof. reflexivity. Qed.
+Print Assumptions C09_src_fit_point.
+
+Theorem C09_src_best_idx :
+  forall (Hyp : Type) cw (pts : list (point Hyp)),
+    best_idx cw pts = Gen_gridsearch.best_idx (map (fun p => Gen_gridsearch.loss cw (p_obj p) (p_gamma p)) pts).
+Proof. reflexivity. Qed.
+Print Assumptions C09_src_best_idx.
+
+(* the code's losses.index(min(losses)) is the left-to-right arg-min scan of C09_select_argmin *)
+Theorem C09_index_of_min : forall l : list Q, index_of_min l = option_map fst (argmin_first l).
+Proof. exact index_of_min_argmin. Qed.
+Print Assumptions C09_index_of_min.
+
+(* MAIN (classification; every parity moment k, ratio r, cost pair, non-empty binary dataset -- the
+   configurations C07_cost_sensitive_equiv covers): if the estimator is an exact cost-sensitive
+   learner over a class H of hard predictors (for binary labels and non-negative weights it returns
+   a member of H of minimal weighted 0/1 error), then for EVERY multiplier vector of the grid the
+   recorded predictor is hard, is a member of H or a constant 0/1 DummyClassifier, and minimises
+   objective + lambda . gamma over H -- with the RECORDED objective_ / gammas_ on the left -- as well
+   as the Lagrangian objective + lambda . (gamma - bound) *)
+Theorem C09_grid_best_response :
+  forall (X Hyp : Type) (learn : list (X * Q * Q) -> Hyp) (predict : Hyp -> list X -> list Q)
+         (H : Hyp -> Prop) (k : kind) (r eps fp fn : Q) (rows : list row) (xs : list X)
+         (grid : list (list Q)),
+    rows <> [] -> binary_rows rows -> length xs = length rows ->
+    hard_class X Hyp predict H xs -> exact_learner X Hyp learn predict H xs ->
+    forall i lam p,
+      nth_error grid i = Some lam ->
+      nth_error (fit_cls learn predict k r fp fn rows xs grid) i = Some p ->
+      hard (fpredict predict (p_fit p) xs) /\
+      ((exists h, p_fit p = Learned h /\ H h) \/ (exists c, p_fit p = Dummy c /\ (c == 0 \/ c == 1))) /\
+      forall h', H h' ->
+        p_obj p + dot lam (p_gamma p)
+          <= er_gamma fp fn rows (predict h' xs) + dot lam (gamma k r rows (predict h' xs)) /\
+        lagrangian k r eps fp fn rows lam (fpredict predict (p_fit p) xs)
+          <= lagrangian k r eps fp fn rows lam (predict h' xs).
+Proof. exact grid_best_response. Qed.
+Print Assumptions C09_grid_best_response.
+
+(* MAIN (loss moments; the configurations C07_loss_identity covers): the objective is in the span, no
+   relabelling; with an exact weighted-loss regressor over H every recorded predictor minimises
+   lambda . gamma over H for every non-negative multiplier vector (C09_grid_vectors: all are) *)
+Theorem C09_grid_best_response_loss :
+  forall (X Hyp : Type) (learn : list (X * Q * Q) -> Hyp) (predict : Hyp -> list X -> list Q)
+         (H : Hyp -> Prop) (l : loss) (rows : list lrow) (xs : list X) (grid : list (list Q)),
+    length xs = length rows -> sized_class X Hyp predict H xs -> exact_regressor X Hyp learn predict l H xs ->
+    forall i lam p,
+      Forall (fun x => 0 <= x) lam ->
+      nth_error grid i = Some lam ->
+      nth_error (fit_loss learn predict l rows xs grid) i = Some p ->
+      length (fpredict predict (p_fit p) xs) = length rows /\
+      ((exists h, p_fit p = Learned h /\ H h) \/ (exists c, p_fit p = Dummy c)) /\
+      forall h', H h' -> dot lam (p_gamma p) <= dot lam (bgl_gamma l rows (predict h' xs)).
+Proof. exact grid_best_response_loss. Qed.
+Print Assumptions C09_grid_best_response_loss.
+
+(* one record per multiplier vector, in grid order; the predictor was trained on the data relabelled /
+   reweighted for THAT vector; objectives_[i] / gammas_[i] are computed from predictors_[i]'s own
+   predictions (by construction of the model; the translator checks the corresponding source lines) *)
+Theorem C09_records_true :
+  forall (X Hyp : Type) (learn : list (X * Q * Q) -> Hyp) (predict : Hyp -> list X -> list Q)
+         k r fp fn rows xs grid,
+    length (fit_cls learn predict k r fp fn rows xs grid) = length grid /\
+    forall i p, nth_error (fit_cls learn predict k r fp fn rows xs grid) i = Some p ->
+      exists lam, nth_error grid i = Some lam /\
+        p_fit p = fit_point_cls learn k r fp fn rows xs lam /\
+        p_obj p = er_gamma fp fn rows (fpredict predict (p_fit p) xs) /\
+        p_gamma p = gamma k r rows (fpredict predict (p_fit p) xs).
+Proof. intros. split; [apply fit_cls_length | apply records_true_cls]. Qed.
+Print Assumptions C09_records_true.
+
+Theorem C09_records_true_loss :
+  forall (X Hyp : Type) (learn : list (X * Q * Q) -> Hyp) (predict : Hyp -> list X -> list Q)
+         l rows xs grid,
+    length (fit_loss learn predict l rows xs grid) = length grid /\
+    forall i p, nth_error (fit_loss learn predict l rows xs grid) i = Some p ->
+      exists lam, nth_error grid i = Some lam /\
+        p_fit p = fit_point_loss learn rows xs lam /\
+        p_obj p = mean_loss l rows (fpredict predict (p_fit p) xs) /\
+        p_gamma p = bgl_gamma l rows (fpredict predict (p_fit p) xs).
+Proof. intros. split; [apply fit_loss_length | apply records_true_loss]. Qed.
+Print Assumptions C09_records_true_loss.
+
+(* predict(X') is the prediction of the predictor at best_idx_ = losses.index(min(losses)), which is
+   the index Grid.select returns: its trade-off loss (from the recorded values) is minimal over all
+   trained predictors and strictly smaller than that of every earlier one *)
+Theorem C09_select_delegates :
+  forall (X Hyp : Type) (predict : Hyp -> list X -> list Q) cw (pts : list (point Hyp)) xs',
+    pts <> [] ->
+    exists i v p,
+      select_pts cw pts = Some (i, v) /\ best_idx cw pts = Some i /\ nth_error pts i = Some p /\
+      gs_predict predict cw pts xs' = Some (fpredict predict (p_fit p) xs') /\
+      v = tradeoff cw (p_obj p) (p_gamma p) /\
+      (forall q, In q pts -> v <= tradeoff cw (p_obj q) (p_gamma q)) /\
+      (forall j q, (j < i)%nat -> nth_error pts j = Some q -> v < tradeoff cw (p_obj q) (p_gamma q)).
+Proof. exact select_delegates. Qed.
+Print Assumptions C09_select_delegates.
+
+(* the premise `exact_learner` / `exact_regressor` is satisfiable for EVERY finite non-empty class
+   given as a list: exhaustive search (first minimiser) is such a learner *)
+Theorem C09_exact_learner_exists :
+  forall (X Hyp : Type) (predict : Hyp -> list X -> list Q) (h0 : Hyp) (class : list Hyp) (xs : list X),
+    class <> [] ->
+    exact_learner X Hyp (enum_learn predict w01 h0 class) predict (fun h => In h class) xs /\
+    forall l, exact_regressor X Hyp (enum_learn predict (wloss l) h0 class) predict l (fun h => In h class) xs.
+Proof. intros. split; [apply enum_exact_learner | intro; apply enum_exact_regressor]; assumption. Qed.
+Print Assumptions C09_exact_learner_exists.
+
+(* non-vacuity: demographic parity, 7 rows, two feature cells, the class of all four cell labelings with
+   the exhaustive learner: the premises of C09_grid_best_response hold, the five multiplier vectors
+   train two different predictors, the first one is selected, and predict delegates to it *)
+Example C09_fit_example :
+  let rows := [mkRow 1 0 None; mkRow 0 0 None; mkRow 1 1 None; mkRow 1 1 None; mkRow 0 1 None;
+               mkRow 0 0 None; mkRow 1 1 None] in
+  let xs := [0; 1; 0; 1; 1; 0; 1]%Z in
+  let class := [[(0%Z, 0); (1%Z, 0)]; [(0%Z, 0); (1%Z, 1)]; [(0%Z, 1); (1%Z, 0)]; [(0%Z, 1); (1%Z, 1)]] in
+  let learn := enum_learn table_predict w01 [] class in
+  let grid := [[0; 0; 0; 0]; [3; 0; 0; 0]; [0; 3; 0; 0]; [0; 0; 3; 0]; [0; 0; 0; 3]] in
+  let pts := fit_cls learn table_predict DP 1 1 1 rows xs grid in
+  rows <> [] /\ binary_rows rows /\ length xs = length rows /\
+  hard_class Z _ table_predict (fun h => In h class) xs /\
+  exact_learner Z _ learn table_predict (fun h => In h class) xs /\
+  map (fun p => fpredict table_predict (p_fit p) xs) pts
+    = [[1; 0; 1; 0; 0; 1; 0]; [0; 1; 0; 1; 1; 0; 1]; [1; 0; 1; 0; 0; 1; 0]; [1; 0; 1; 0; 0; 1; 0];
+       [0; 1; 0; 1; 1; 0; 1]] /\
+  best_idx (1 # 2) pts = Some 0%nat /\
+  gs_predict table_predict (1 # 2) pts [1; 1; 0]%Z = Some [0; 0; 1].
+Proof.
+  cbv zeta. split; [discriminate|]. split.
+  { repeat (apply Forall_cons; [cbn; first [left; reflexivity | right; reflexivity]|]). apply Forall_nil. }
+  split; [reflexivity|]. split.
+  { intros h Hh. cbn in Hh.
+    repeat (destruct Hh as [<- | Hh]; [split; [|reflexivity];
+      repeat (apply Forall_cons; [vm_compute; first [left; reflexivity | right; reflexivity]|]); apply Forall_nil|]).
+    destruct Hh. }
+  split; [apply enum_exact_learner; discriminate|].
+  split; [vm_compute; reflexivity|]. split; vm_compute; reflexivity.
+Qed.
